@@ -69,6 +69,9 @@ theorem View.sameStructure (c : Cell) (x : α) (v : View ν α) : SameStructure 
   | matrixOf s r cn ih =>
     exact ⟨by simp [View.setCell, View.shape, ih.1], by intro idx; simp [View.setCell, View.get, ih.2.1],
       by simp [View.setCell, View.leaves, ih.2.2]⟩
+  | tmap s ih =>
+    exact ⟨by simp [View.setCell, View.shape, ih.1], by intro idx; simp [View.setCell, View.get, ih.2.1],
+      by simp [View.setCell, View.leaves, ih.2.2]⟩
   | range s rs ih =>
     exact ⟨by simp [View.setCell, View.shape, ih.1], by intro idx; simp [View.setCell, View.get, ih.2.1],
       by simp [View.setCell, View.leaves, ih.2.2]⟩
